@@ -13,6 +13,8 @@ package net
 //   - cumulative allocation (MemStats.TotalAlloc delta, single goroutine) <= 256 x stream + 1 MiB
 //     (+ the declared length when it is legal: that is the payload buffer);
 //   - mutated payloads that decode: decode(encode(decode(b))) == decode(b) (semantic idempotence).
+//   - payloads that differ from a valid one only in the width of 1-3 length prefixes (c24_nonmin_test.go):
+//     rejected, or the returned message re-serializes to exactly the received frame.
 
 import (
 	"bytes"
@@ -33,7 +35,7 @@ import (
 	"verifharness/internal/harn"
 )
 
-const c24Rule = "typed generators for the 21 message kinds encoded by a reference encoder (lists 0/1/max/small, varuint width edges, zoo keys, signed subnet/offline messages), then either kept (round-trip), given a mutated header, a hostile count in one count/length field, truncated at field boundaries, or byte-mutated / replaced by random payloads under a valid header; non-trivial = the stream passes the frame checks and reaches a per-type decoder with a non-empty message (round-trip: at least one element/field), distinct = different (kind, mutation, payload)"
+const c24Rule = "typed generators for the 21 message kinds encoded by a reference encoder (lists 0/1/max/small, varuint width edges, zoo keys, signed subnet/offline messages), then either kept (round-trip), given a mutated header, a hostile count in one count/length field, truncated at field boundaries, given 1-3 non-minimal (FD/FE/FF-widened, value unchanged) var-uint count / var-bytes / var-string length prefixes drawn uniformly over the (kind, field) pairs of all 10 kinds that have such fields (oracle: rejected, or re-serialized byte-identically to the received frame), or byte-mutated / replaced by random payloads under a valid header; non-trivial = the stream passes the frame checks and reaches a per-type decoder with a non-empty message (round-trip: at least one element/field), distinct = different (kind, mutation, payload)"
 
 func c24ev() *harn.Collector {
 	return harn.For("C24").Rule(c24Rule).
